@@ -2,8 +2,10 @@ package main
 
 import (
 	"fmt"
+	"os"
 	"strings"
 	"sync"
+	"time"
 )
 
 // GENCHECK (internal tool, not a property): soundness of my own generators and renderer. Draws many
@@ -119,7 +121,7 @@ func init() {
 				defer wg.Done()
 				sem <- struct{}{}
 				defer func() { <-sem }()
-				b, err := rs.tools.newBatch([]*Program{p}, batchOpts{style: importStyles[0]})
+				b, err := rs.tools.newBatch([]*Program{p}, batchOpts{style: importStyles[0], variants: []string{"r"}})
 				if err != nil {
 					rs.infraProblem(err.Error())
 					return
@@ -128,6 +130,14 @@ func init() {
 				f := b.render()
 				if f == nil {
 					f = rs.tools.validate(b)
+				}
+				if f == nil && len(p.Entries) > 0 {
+					// the entries (calls made by the runner) must build too: a runner against the reference rendering only
+					if err := b.writeRunner(); err != nil {
+						f = &stageFailure{Stage: "build-run", Diag: err.Error()}
+					} else if r := runCmd(b.dir, 10*time.Minute, nil, "go", "build", "-o", os.DevNull, "./run"); r.code != 0 {
+						f = &stageFailure{Stage: "build-run", Diag: r.out}
+					}
 				}
 				if f != nil {
 					mu.Lock()
